@@ -70,6 +70,9 @@ namespace
         G& grid;
         typename G::neighbors_indices_type buf_idx;
         typename G::neighbors_type buf_nb;
+        // reused output buffers of the raster (row, col) in-place overloads (flat (row, col, idx, dist, status) records)
+        std::vector<std::pair<std::size_t, std::size_t>> buf_rc_idx;
+        std::vector<fs::raster_neighbor> buf_rc_nb;
         long checks = 0;
         // what the library reported (for the symmetry check)
         std::vector<std::vector<std::size_t>> seen;
@@ -254,6 +257,34 @@ namespace
                                 break;
                             }
                 }
+                if (kindmask & 64u)
+                {
+                    // in-place (row, col) overloads, output containers reused from visit to visit (they hold
+                    // whatever the previous node left in them)
+                    ++checks;
+                    std::size_t r = i / spec.cols, c = i % spec.cols;
+                    auto& rc2 = grid.neighbors_indices(r, c, buf_rc_idx);
+                    std::vector<NbRec> got3;
+                    for (auto& p : rc2)
+                        got3.push_back({ (p.first < spec.rows && p.second < spec.cols) ? p.first * spec.cols + p.second : SIZE_MAX, 0 });
+                    auto e0 = expect;
+                    for (auto& e : e0)
+                        e.dist = 0;
+                    if (!same_multiset(got3, e0, 0))
+                        fail("raster_indices_inplace", i, "neighbors_indices(r,c,out)=" + nb_json(got3));
+                    auto& rn2 = grid.neighbors(r, c, buf_rc_nb);
+                    std::vector<NbRec> got4;
+                    for (auto& n : rn2)
+                    {
+                        got4.push_back({ n.flatten_idx, n.distance });
+                        if (n.row * spec.cols + n.col != n.flatten_idx)
+                            fail("raster_neighbors_inplace", i, "row/col do not match flatten_idx");
+                        if (n.flatten_idx < ref.n && n.status != ref.status[n.flatten_idx])
+                            fail("status", i, "neighbors(r,c,out): wrong status");
+                    }
+                    if (!same_multiset(got4, expect, ulps))
+                        fail("raster_neighbors_inplace", i, "neighbors(r,c,out)=" + nb_json(got4));
+                }
             }
             if (have_idx)
                 seen[i] = idx_list;
@@ -264,7 +295,7 @@ namespace
     // earlier ones: populated cache, scratch buffers, ...)
     void c07_run_orders(Runner& R, Rng& rng, const GridSpec& spec, const RefGeom& ref, grid_t& grid, int n_orders)
     {
-        C07CtxT<grid_t> ctx{ R, spec, ref, grid, {}, {}, 0, {}, "" };
+        C07CtxT<grid_t> ctx{ R, spec, ref, grid, {}, {}, {}, {}, 0, {}, "" };
         const std::size_t n = ref.n;
         static const char* names[] = { "forward", "reverse", "random", "repeated", "interleaved", "two_grids", "other_thread" };
         constexpr int n_names = 7;
